@@ -30,8 +30,8 @@ ASSUMPTIONS = [
 BOUNDS = {"quick": {"prepend_step": 1, "variants": "core"}, "thorough": {"prepend_step": 1, "variants": "full"}}
 E_LFANEW = (0x40, 0x80, 0xF8, 0x3F8)
 E_LFANEW_THOROUGH = (0x44, 0x48, 0x100, 0x200, 0x3FC)
-MZ = (b"MZ", b"MZRE", b"MZAR", b"\x4d\x5a\x41\x52", b"\x90\x90\x41\x42")
-PEM = (b"PE\x00\x00", b"De\x00\x00", b"\x01\x02\x03\x04")
+MZ = (b"MZ", b"MZRE", b"MZAR", b"\x4d\x5a\x41\x52", b"\x90\x90\x41\x42", b"MZ\n\r", b"\n\x0bMZ")
+PEM = (b"PE\x00\x00", b"De\x00\x00", b"\x01\x02\x03\x04", b"NTH\x00", b"P\n\x00\x01")
 
 
 def plan(tier, seed):
